@@ -690,7 +690,7 @@ func runExchange(t *verifsim.Tape, cfg engine.Config, prop string) *engine.Outco
 			if prop == "C02" || prop == "C04" {
 				want := expectedPayload(d, m, payload)
 				if diff := gen.Diff(want, w.invoked[0].got, ""); diff != "" {
-					o.Violate("payload_delivery", "delivery:"+diffClass(d, m, diff)+":"+sig, "%s: payload changed in transit: %s\n  sent     %s\n  received %s\n  request  %s", where, diff, gen.Show(payload), gen.Show(w.invoked[0].got), firstLineOf(ex.ReqWire))
+					o.Violate("payload_delivery", "delivery:"+deliverySig(diffClassP(d, m, diff, payload), sig), "%s: payload changed in transit: %s\n  sent     %s\n  received %s\n  request  %s", where, diff, gen.Show(payload), gen.Show(w.invoked[0].got), firstLineOf(ex.ReqWire))
 				}
 				for _, e := range CheckRequestPlacement(d, s, m, payload, ex.ReqWire) {
 					o.Violate("request_placement", "placement:"+placementClass(e)+":"+sig, "%s: %s\n  payload %s\n  request %s", where, e, gen.Show(payload), clipS(string(ex.ReqWire)))
@@ -817,6 +817,34 @@ func firstLineOf(b []byte) string {
 }
 
 // diffClass turns "a.b: want X, got Y" into a signature: attribute location and type.
+// queryMapBracketKey names a map attribute carried in the query string one of whose keys contains ']':
+// the wire form name[key]=value has no escaping for it (known finding).
+func queryMapBracketKey(d *spec.Design, m *spec.Method, payload any) string {
+	obj, _ := payload.(map[string]any)
+	for a := range m.Params {
+		if mv, ok := obj[a].(*gen.MapVal); ok {
+			for _, k := range mv.K {
+				if ks, ok := k.(string); ok && strings.Contains(ks, "]") {
+					return a
+				}
+			}
+		}
+	}
+	return ""
+}
+
+func diffClassP(d *spec.Design, m *spec.Method, diff string, payload any) string {
+	path := diff
+	if i := strings.Index(diff, ":"); i > 0 {
+		path = diff[:i]
+	}
+	top := strings.SplitN(strings.SplitN(path, ".", 2)[0], "[", 2)[0]
+	if a := queryMapBracketKey(d, m, payload); a != "" && a == top {
+		return "query-map-key-contains-closing-bracket"
+	}
+	return diffClass(d, m, diff)
+}
+
 func diffClass(d *spec.Design, m *spec.Method, diff string) string {
 	path := diff
 	if i := strings.Index(diff, ":"); i > 0 {
@@ -1893,6 +1921,9 @@ func judgeDropped(o *engine.Outcome, w *world, d *spec.Design, design string, s 
 			o.Features["default_injected_checked"]++
 		}
 		if diff := gen.Diff(want, w.invoked[0].got, ""); diff != "" {
+			if dc := diffClassP(d, m, diff, p2); dc == "query-map-key-contains-closing-bracket" {
+				cls = dc
+			}
 			o.Violate("payload_delivery", "delivery-after-drop:"+cls, "%s: request without %s %q: %s\n  expected %s\n  received %s", where, ex.DroppedLoc, ex.DroppedName, diff, gen.Show(want), gen.Show(w.invoked[0].got))
 		}
 		return
@@ -2067,4 +2098,13 @@ func judgeCustomError(o *engine.Outcome, w *world, d *spec.Design, s *spec.Servi
 			}
 		}
 	}
+}
+
+
+// deliverySig keeps structural known-finding classes free of the per-exchange suffix.
+func deliverySig(cls, sig string) string {
+	if cls == "query-map-key-contains-closing-bracket" {
+		return cls
+	}
+	return cls + ":" + sig
 }
